@@ -105,6 +105,12 @@ func prunePool(l *ledGen) {
 // pending spender of the same coin would run into the store's per-outpoint marker being deleted as a
 // whole when one of the spenders is purged (deleteUnminedInputs) - a known finding (notes/C06.md, F1)
 // whose witness lives in the corpus; the generated histories keep one delivered spender per coin.
+//
+// oneSpenderPerCoin: set to false once the repair of F1 (deleteUnminedInputs removes only the purged
+// transaction's hash from the marker list) is on the main branch - the generated histories then carry
+// several delivered spenders per coin again, and nothing else refers to the finding.
+const oneSpenderPerCoin = true
+
 var burned = map[string]bool{}
 var delivered = map[string][]string{}
 
@@ -115,6 +121,9 @@ func resetSpenders() {
 // singleSpender decides whether the `recvtx T` line just produced by ledGen may be emitted: T's inputs
 // (taken from its `tx` line) must not be spent by another delivered transaction, live or conflicted.
 func singleSpender(l *ledGen, name string) bool {
+	if !oneSpenderPerCoin {
+		return true
+	}
 	t := l.defined[name]
 	if t == nil {
 		return true
